@@ -1,0 +1,363 @@
+//go:build verif
+
+// Contracts for package governance (C14 proposal lifecycle and fund accounting; C02 for the fund ledger).
+// Comment-only file, read by /verif/govc.
+
+package governance
+
+// constants of this package for use in other packages' contracts
+//@ ghost func stFunding() ProposalStatus = ProposalStatusFunding
+//@ ghost func stVoting() ProposalStatus = ProposalStatusVoting
+//@ ghost func stCompleted() ProposalStatus = ProposalStatusCompleted
+//@ ghost func ocInProgress() ProposalOutcome = ProposalOutcomeInProgress
+//@ ghost func ocInsufficientFunds() ProposalOutcome = ProposalOutcomeInsufficientFunds
+//@ ghost func ocInsufficientVotes() ProposalOutcome = ProposalOutcomeInsufficientVotes
+//@ ghost func ocCompletedNo() ProposalOutcome = ProposalOutcomeCompletedNo
+//@ ghost func ocCancelled() ProposalOutcome = ProposalOutcomeCancelled
+//@ ghost func ocCompletedYes() ProposalOutcome = ProposalOutcomeCompletedYes
+//@ ghost func tyConfigUpdate() ProposalType = ProposalTypeConfigUpdate
+//@ ghost func vrPassed() VoteResult = VOTE_RESULT_PASSED
+//@ ghost func vrFailed() VoteResult = VOTE_RESULT_FAILED
+//@ ghost func vrTBD() VoteResult = VOTE_RESULT_TBD
+
+// ---------------------------------------------------------------- proposal store vocabulary
+//
+// pHas(ps)[p][id]  : a proposal record exists under stage prefix p (string content of the prefix bytes) and id
+// pRec(ps)[p][id]  : that record (all scalar fields; the FundingGoal pointer of the record is meaningless, see pGoal)
+// pGoal(ps)[p][id] : the funding goal of that record (value of its *balance.Amount)
+//@ model pHas(*ProposalStore) array[string]array[string]bool
+//@ model pRec(*ProposalStore) array[string]array[string]Proposal
+//@ model pGoal(*ProposalStore) array[string]array[string]int
+
+//@ ghost func propHas(ps *ProposalStore, p bytes, id ProposalID) bool = pHas(ps)[str(p)][id]
+//@ ghost func propRec(ps *ProposalStore, p bytes, id ProposalID) Proposal = pRec(ps)[str(p)][id]
+//@ ghost func propGoal(ps *ProposalStore, p bytes, id ProposalID) int = pGoal(ps)[str(p)][id]
+
+// the five stage prefixes are pairwise different (NewProposalStore is called with five different strings)
+//@ ghost func wfPS(ps *ProposalStore) bool = ps != nil && str(ps.prefixActive) != str(ps.prefixPassed) && str(ps.prefixActive) != str(ps.prefixFailed) && str(ps.prefixActive) != str(ps.prefixFinalized) && str(ps.prefixActive) != str(ps.prefixFinalizeFailed) && str(ps.prefixPassed) != str(ps.prefixFailed) && str(ps.prefixPassed) != str(ps.prefixFinalized) && str(ps.prefixPassed) != str(ps.prefixFinalizeFailed) && str(ps.prefixFailed) != str(ps.prefixFinalized) && str(ps.prefixFailed) != str(ps.prefixFinalizeFailed) && str(ps.prefixFinalized) != str(ps.prefixFinalizeFailed)
+
+// typed view of the State prefix (assumed: rests on C09's State contracts and on T-SER round-tripping of Proposal)
+//@ assume func (*ProposalStore).Get
+//@   modifies nothing
+// pHas is by definition "a decodable record is stored": Get succeeds exactly then (State.Get itself never fails)
+//@   ensures (err == nil) == propHas(ps, ps.prefix, proposalID)
+//@   ensures err == nil ==> result0 != nil && fresh(result0) && propHas(ps, ps.prefix, proposalID) && *result0 == propRec(ps, ps.prefix, proposalID)
+//@   ensures err == nil ==> result0.FundingGoal != nil && fresh(result0.FundingGoal) && big(result0.FundingGoal) == propGoal(ps, ps.prefix, proposalID)
+// Set is the only writer and keys every record on its own ProposalID
+//@   ensures err == nil ==> result0.ProposalID == proposalID
+//@   ensures err != nil ==> result0 == nil
+
+//@ func (*ProposalStore).WithPrefixType
+//@   modifies ps.prefix
+//@   ensures result == ps
+//@   ensures prefixType == ProposalStateActive ==> ps.prefix == ps.prefixActive
+//@   ensures prefixType == ProposalStatePassed ==> ps.prefix == ps.prefixPassed
+//@   ensures prefixType == ProposalStateFailed ==> ps.prefix == ps.prefixFailed
+//@   ensures prefixType == ProposalStateFinalized ==> ps.prefix == ps.prefixFinalized
+//@   ensures prefixType == ProposalStateFinalizeFailed ==> ps.prefix == ps.prefixFinalizeFailed
+
+// Set keys the record on proposal.ProposalID under the current prefix
+//@ assume func (*ProposalStore).Set
+//@   requires ps != nil && proposal != nil
+//@   modifies pHas(ps)[str(ps.prefix)], pRec(ps)[str(ps.prefix)], pGoal(ps)[str(ps.prefix)], vHas(ps.state), vVal(ps.state), gasOut(ps.state)
+//@   ensures err == nil ==> pHas(ps)[str(ps.prefix)] == old(pHas(ps))[str(ps.prefix)][proposal.ProposalID := true]
+//@   ensures err == nil ==> pRec(ps)[str(ps.prefix)] == old(pRec(ps))[str(ps.prefix)][proposal.ProposalID := *proposal]
+//@   ensures err == nil ==> pGoal(ps)[str(ps.prefix)] == old(pGoal(ps))[str(ps.prefix)][proposal.ProposalID := big(proposal.FundingGoal)]
+//@   ensures err != nil ==> pHas(ps) == old(pHas(ps)) && pRec(ps) == old(pRec(ps)) && pGoal(ps) == old(pGoal(ps))
+//@   ensures old(gasOut(ps.state)) ==> gasOut(ps.state)
+
+// gasOut(state): the gas limit of the State's gas store is reached (writes and deletes fail); it never resets within a
+// transaction, so a Delete that failed keeps failing
+//@ model gasOut(*storage.State) bool
+
+// Delete: (true, nil) means the record under the current prefix is gone; nothing else changes.
+// Every storage layer's Delete returns (true, nil), or (false, err) when the gas limit is reached.
+//@ assume func (*ProposalStore).Delete
+//@   requires ps != nil
+//@   modifies pHas(ps)[str(ps.prefix)], vHas(ps.state), vVal(ps.state), gasOut(ps.state)
+//@   ensures result0 && err == nil ==> pHas(ps)[str(ps.prefix)] == old(pHas(ps))[str(ps.prefix)][key := false]
+//@   ensures !(result0 && err == nil) ==> pHas(ps)[str(ps.prefix)] == old(pHas(ps))[str(ps.prefix)]
+//@   ensures result0 == (err == nil) && (err != nil) == gasOut(ps.state) && (old(gasOut(ps.state)) ==> gasOut(ps.state))
+
+//@ assume func (*ProposalStore).Exists
+//@   requires ps != nil
+//@   modifies nothing
+//@   ensures result == (propHas(ps, ps.prefixActive, key) || propHas(ps, ps.prefixPassed, key) || propHas(ps, ps.prefixFailed, key) || propHas(ps, ps.prefixFinalized, key) || propHas(ps, ps.prefixFinalizeFailed, key))
+
+// QueryAllStores restores ps.prefix in a deferred closure, which the engine ignores: the contract
+// therefore says nothing about ps.prefix after the call (every caller re-aims the store before its next use).
+// heap("Proposal"): in-memory Proposal objects only (a failing Get returns nil, and the engine havocs the cell a
+// possibly-fresh result points to, including cell 0).
+//@ func (*ProposalStore).QueryAllStores
+//@   requires wfPS(ps)
+//@   modifies ps.prefix, heap("Proposal")
+//@   ensures err == nil ==> result0 != nil && fresh(result0) && result0.FundingGoal != nil && fresh(result0.FundingGoal)
+//@   ensures err == nil ==> result0.ProposalID == key
+//@   ensures err == nil && result1 == ProposalStateActive ==> propHas(ps, ps.prefixActive, key) && *result0 == propRec(ps, ps.prefixActive, key) && big(result0.FundingGoal) == propGoal(ps, ps.prefixActive, key)
+//@   ensures err == nil && result1 == ProposalStatePassed ==> propHas(ps, ps.prefixPassed, key) && *result0 == propRec(ps, ps.prefixPassed, key) && big(result0.FundingGoal) == propGoal(ps, ps.prefixPassed, key)
+//@   ensures err == nil && result1 == ProposalStateFailed ==> propHas(ps, ps.prefixFailed, key) && *result0 == propRec(ps, ps.prefixFailed, key) && big(result0.FundingGoal) == propGoal(ps, ps.prefixFailed, key)
+//@   ensures err == nil && result1 == ProposalStateFinalized ==> propHas(ps, ps.prefixFinalized, key) && *result0 == propRec(ps, ps.prefixFinalized, key) && big(result0.FundingGoal) == propGoal(ps, ps.prefixFinalized, key)
+//@   ensures err == nil && result1 == ProposalStateFinalizeFailed ==> propHas(ps, ps.prefixFinalizeFailed, key) && *result0 == propRec(ps, ps.prefixFinalizeFailed, key) && big(result0.FundingGoal) == propGoal(ps, ps.prefixFinalizeFailed, key)
+// search order: active first, then passed, failed, finalized, finalize-failed
+//@   ensures propHas(ps, ps.prefixActive, key) ==> err == nil && result1 == ProposalStateActive
+//@   ensures !propHas(ps, ps.prefixActive, key) && propHas(ps, ps.prefixPassed, key) ==> err == nil && result1 == ProposalStatePassed
+//@   ensures !propHas(ps, ps.prefixActive, key) && !propHas(ps, ps.prefixPassed, key) && propHas(ps, ps.prefixFailed, key) ==> err == nil && result1 == ProposalStateFailed
+//@   ensures err == nil ==> result1 == ProposalStateActive || result1 == ProposalStatePassed || result1 == ProposalStateFailed || result1 == ProposalStateFinalized || result1 == ProposalStateFinalizeFailed
+
+//@ func (*ProposalStore).GetOptionsByType
+//@   modifies nothing
+
+// ---------------------------------------------------------------- proposal fund store
+//
+// fund(pf)[k]    : the amount recorded under store key k (individual record "i_<id>_<funder>" or total record "t_<id>")
+// fundBad(pf)[k] : the bytes under k do not decode (get fails); a function of the state, so get is deterministic
+// fundSum(pf)[id]: ghost running sum of the individual records of proposal id (updated by every mutator by the
+//                  delta it applies to one individual record, as balTotal in package balance)
+// indKey/totKey  : the keys the code builds; strings are uninterpreted in the engine, so the two builders are
+//                  assumed (T-STR): an individual key ("i_...") is never a total key ("t_...")
+//@ model fund(*ProposalFundStore) array[string]int
+//@ model fundBad(*ProposalFundStore) array[string]bool
+//@ model fundSum(*ProposalFundStore) array[string]int
+//@ ghost func indKey(id ProposalID, addr string) string
+//@ ghost func totKey(id ProposalID) string
+
+//@ assume func assembleTotalFundsKey
+//@   modifies nothing
+//@   ensures str(result) == totKey(proposalId)
+
+//@ assume func assembleIndividualFundsKey
+//@   modifies nothing
+//@   ensures str(result) == indKey(proposalId, str(fundingAddress))
+//@   ensures forall id ProposalID :: str(result) != totKey(id)
+
+// get/set/delete: the store's typed view of its State prefix. Assumed (rests on C09's State contracts and on T-SER
+// round-tripping of Amount); everything above them is proved against these three.
+//@ assume func (*ProposalFundStore).get
+//@   requires pf != nil
+//@   modifies nothing
+//@   ensures (err != nil) == fundBad(pf)[str(key)]
+// amt is nil only when State.Get fails, which it never does (its last resort ChainState.Get has err == nil)
+//@   ensures amt != nil && fresh(amt)
+//@   ensures err == nil ==> big(amt) == fund(pf)[str(key)]
+
+//@ assume func (*ProposalFundStore).set
+//@   requires pf != nil
+//@   modifies fund(pf)[str(key)], fundBad(pf)[str(key)], vHas(pf.State), vVal(pf.State)
+//@   ensures err == nil ==> fund(pf)[str(key)] == amt && !fundBad(pf)[str(key)]
+//@   ensures err != nil ==> fund(pf)[str(key)] == old(fund(pf))[str(key)] && fundBad(pf)[str(key)] == old(fundBad(pf))[str(key)]
+
+//@ assume func (*ProposalFundStore).delete
+//@   requires pf != nil
+//@   modifies fund(pf)[str(key)], fundBad(pf)[str(key)], vHas(pf.State), vVal(pf.State)
+//@   ensures result0 && err == nil ==> fund(pf)[str(key)] == 0
+//@   ensures !(result0 && err == nil) ==> fund(pf)[str(key)] == old(fund(pf))[str(key)] || fund(pf)[str(key)] == 0
+//@   ensures err != nil ==> !result0
+
+//@ func (*ProposalFundStore).GetCurrentFundsForProposal
+//@   requires pf != nil
+//@   modifies nothing
+//@   ensures result != nil && fresh(result)
+//@   ensures !fundBad(pf)[totKey(proposalID)] ==> big(result) == fund(pf)[totKey(proposalID)]           // C14.fund-total
+//@   ensures fundBad(pf)[totKey(proposalID)] ==> big(result) == 0                                        // C14.fund-total
+
+//@ func (*ProposalFundStore).GetFundsForProposalByFunder
+//@   requires pf != nil
+//@   modifies nothing
+//@   ensures result != nil && fresh(result)
+//@   ensures !fundBad(pf)[indKey(proposalID, str(funder))] ==> big(result) == fund(pf)[indKey(proposalID, str(funder))]   // C14.fund-record
+
+//@ func (*ProposalFundStore).addAmount
+//@   requires pf != nil && amount != nil
+//@   modifies fund(pf)[str(key)], fundBad(pf)[str(key)], vHas(pf.State), vVal(pf.State)
+//@   ensures err == nil ==> fund(pf)[str(key)] == old(fund(pf))[str(key)] + big(amount) && !old(fundBad(pf))[str(key)] && !fundBad(pf)[str(key)]   // C14.fund-delta
+//@   ensures err != nil ==> fund(pf)[str(key)] == old(fund(pf))[str(key)] && fundBad(pf)[str(key)] == old(fundBad(pf))[str(key)]                     // C14.fund-delta
+
+//@ func (*ProposalFundStore).deductAmount
+//@   requires pf != nil && amount != nil
+//@   modifies fund(pf)[str(key)], fundBad(pf)[str(key)], vHas(pf.State), vVal(pf.State)
+//@   ensures err == nil ==> fund(pf)[str(key)] == old(fund(pf))[str(key)] - big(amount) && old(fund(pf))[str(key)] >= big(amount) && !old(fundBad(pf))[str(key)] && !fundBad(pf)[str(key)]   // C14.fund-delta
+//@   ensures err != nil ==> fund(pf)[str(key)] == old(fund(pf))[str(key)] && fundBad(pf)[str(key)] == old(fundBad(pf))[str(key)]                     // C14.fund-delta
+
+//@ func (*ProposalFundStore).AddFunds
+//@   requires pf != nil && amount != nil
+//@   modifies fund(pf)[indKey(proposalId, str(fundingAddress))], fund(pf)[totKey(proposalId)], fundBad(pf)[indKey(proposalId, str(fundingAddress))], fundBad(pf)[totKey(proposalId)], fundSum(pf)[proposalId], vHas(pf.State), vVal(pf.State)
+//@   update fundSum(pf) := old(fundSum(pf))[proposalId := old(fundSum(pf))[proposalId] + (fund(pf)[indKey(proposalId, str(fundingAddress))] - old(fund(pf))[indKey(proposalId, str(fundingAddress))])]
+//@   ensures err == nil ==> fund(pf)[indKey(proposalId, str(fundingAddress))] == old(fund(pf))[indKey(proposalId, str(fundingAddress))] + big(amount)   // C14.fund-delta
+//@   ensures err == nil ==> fund(pf)[totKey(proposalId)] == old(fund(pf))[totKey(proposalId)] + big(amount)                                             // C14.fund-delta
+//@   ensures err == nil ==> fundSum(pf)[proposalId] == old(fundSum(pf))[proposalId] + big(amount)                                                       // C14.fund-delta
+//@   ensures err == nil ==> !old(fundBad(pf))[totKey(proposalId)]                                                                                       // C14.fund-total
+
+//@ func (*ProposalFundStore).DeductFunds
+//@   requires pf != nil && amount != nil
+//@   modifies fund(pf)[indKey(proposalId, str(fundingAddress))], fund(pf)[totKey(proposalId)], fundBad(pf)[indKey(proposalId, str(fundingAddress))], fundBad(pf)[totKey(proposalId)], fundSum(pf)[proposalId], vHas(pf.State), vVal(pf.State)
+//@   update fundSum(pf) := old(fundSum(pf))[proposalId := old(fundSum(pf))[proposalId] + (fund(pf)[indKey(proposalId, str(fundingAddress))] - old(fund(pf))[indKey(proposalId, str(fundingAddress))])]
+//@   ensures err == nil ==> fund(pf)[indKey(proposalId, str(fundingAddress))] == old(fund(pf))[indKey(proposalId, str(fundingAddress))] - big(amount)   // C14.fund-delta
+//@   ensures err == nil ==> old(fund(pf))[indKey(proposalId, str(fundingAddress))] >= big(amount)                                                       // C14.fund-non-negative
+//@   ensures err == nil ==> fund(pf)[totKey(proposalId)] == old(fund(pf))[totKey(proposalId)] - big(amount)                                             // C14.fund-delta
+//@   ensures err == nil ==> old(fund(pf))[totKey(proposalId)] >= big(amount)                                                                            // C14.fund-non-negative
+//@   ensures err == nil ==> fundSum(pf)[proposalId] == old(fundSum(pf))[proposalId] - big(amount)                                                       // C14.fund-delta
+//@   ensures err == nil ==> !old(fundBad(pf))[totKey(proposalId)]                                                                                       // C14.fund-total
+
+// DeleteFunds: the individual record is removed and the total record is reduced by exactly that record
+//@ func (*ProposalFundStore).DeleteFunds
+//@   requires pf != nil
+//@   modifies fund(pf)[indKey(proposalId, str(fundingAddress))], fund(pf)[totKey(proposalId)], fundBad(pf)[indKey(proposalId, str(fundingAddress))], fundBad(pf)[totKey(proposalId)], fundSum(pf)[proposalId], vHas(pf.State), vVal(pf.State)
+//@   update fundSum(pf) := old(fundSum(pf))[proposalId := old(fundSum(pf))[proposalId] + (fund(pf)[indKey(proposalId, str(fundingAddress))] - old(fund(pf))[indKey(proposalId, str(fundingAddress))])]
+//@   ensures err == nil && result0 ==> fund(pf)[indKey(proposalId, str(fundingAddress))] == 0                                                           // C14.fund-delete
+//@   ensures fund(pf)[indKey(proposalId, str(fundingAddress))] == old(fund(pf))[indKey(proposalId, str(fundingAddress))] || fund(pf)[indKey(proposalId, str(fundingAddress))] == 0   // C14.fund-delete
+//@   ensures err == nil ==> fund(pf)[totKey(proposalId)] == old(fund(pf))[totKey(proposalId)] - old(fund(pf))[indKey(proposalId, str(fundingAddress))]  // C14.fund-delete
+//@   ensures err == nil ==> old(fund(pf))[totKey(proposalId)] >= old(fund(pf))[indKey(proposalId, str(fundingAddress))]                                 // C14.fund-non-negative
+//@   ensures err == nil && result0 ==> fundSum(pf)[proposalId] == old(fundSum(pf))[proposalId] - old(fund(pf))[indKey(proposalId, str(fundingAddress))] // C14.fund-delete
+
+// iteration over the individual records of one proposal (GetFundsForProposalID -> iterate -> State.IterateRange, which
+// walks the committed tree only: records written earlier in the same block are not visited). Assumed typed view:
+// every yield is an individual record of proposal id.
+//@ assume func (*ProposalFundStore).GetFundsForProposalID
+//@   iterator
+//@   requires pf != nil
+//@   modifies nothing
+//@   yields y0 == id && y2 != nil
+
+//@ func (*ProposalFundStore).IsFundedByFunder
+//@   requires pf != nil
+//@   modifies nothing
+
+// DeleteAllFunds: applies DeleteFunds to the visited records of proposal id (each zeroes an individual record and takes it
+// off the total record) and finally sets the total record to zero; records other than the total are unchanged or zeroed
+//@ func (*ProposalFundStore).DeleteAllFunds
+//@   requires pf != nil
+//@   modifies fund(pf), fundBad(pf), fundSum(pf)[id], vHas(pf.State), vVal(pf.State)
+//@   invariant iter1: forall k string :: k != totKey(id) ==> fund(pf)[k] == old(fund(pf))[k] || fund(pf)[k] == 0
+//@   ensures err == nil ==> fund(pf)[totKey(id)] == 0 && !fundBad(pf)[totKey(id)]                                 // C14.funds-deleted
+//@   ensures forall k string :: k != totKey(id) ==> fund(pf)[k] == old(fund(pf))[k] || fund(pf)[k] == 0           // C14.funds-deleted
+
+// ---------------------------------------------------------------- governance option store (typed view, assumed)
+//
+// optVD(st)[t] / optPass(st)[t]: voting period and pass percentage of the proposal options of type t currently in force
+//@ model optVD(*Store) array[int]int
+//@ model optPass(*Store) array[int]int
+
+// gPct(x): the integer percentage the distribution code derives from a float percentage x: int64(x * 10000)
+//@ ghost func gPct(x float64) int = wrap64(@int_of_f64(@f64_mul(x, @f64_of_int(10000))))
+// gDistOK(d): the five shares the distribution pays or burns are non-negative and together at most 100 %
+// (A-GENESIS: fund distributions are fixed at genesis - ValidateGov rejects any change - as non-negative percentages with
+// sum 100; that int64(x*10000) of such an x lies in [0, 10^6] is a floating-point fact outside the engine)
+//@ ghost func gDistOK(d ProposalFundDistribution) bool = gPct(d.Validators) >= 0 && gPct(d.ProposerReward) >= 0 && gPct(d.BountyPool) >= 0 && gPct(d.ExecutionCost) >= 0 && gPct(d.Burn) >= 0 && gPct(d.Validators) + gPct(d.ProposerReward) + gPct(d.BountyPool) + gPct(d.ExecutionCost) + gPct(d.Burn) <= 1000000
+
+//@ assume func (*Store).GetProposalOptionsByType
+//@   modifies nothing
+//@   ensures err == nil ==> result0 != nil && fresh(result0) && result0.VotingDeadline == optVD(st)[ptype] && result0.PassPercentage == optPass(st)[ptype]
+//@   ensures err == nil ==> result0.InitialFunding != nil && result0.FundingGoal != nil && fresh(result0.InitialFunding) && fresh(result0.FundingGoal)
+// stored options passed ValidateGov (validations.go: initial funding within a positive range)
+//@   ensures err == nil ==> big(result0.InitialFunding) >= 0
+//@   ensures err == nil ==> gDistOK(result0.PassedFundDistribution) && gDistOK(result0.FailedFundDistribution)
+//@   ensures err != nil ==> result0 == nil
+
+// propOpt(st): the stored option set (requested by the C19 worker: BountyProgramAddr etc. are functions of the store)
+//@ model propOpt(*Store) ProposalOptionSet
+//@ assume func (*Store).GetProposalOptions
+//@   modifies nothing
+//@   ensures err == nil ==> result0 != nil && fresh(result0) && *result0 == propOpt(st)
+//@   ensures err != nil ==> result0 == nil
+
+// ---------------------------------------------------------------- proposal vote store
+//
+// voteHas(pvs)[id][v]  : a snapshot record exists for (proposal id, validator address bytes v)
+// voteOpin(pvs)[id][v] : its opinion;  votePow(pvs)[id][v]: its power (fixed at Setup, i.e. when voting began)
+// gvOp/gvPw(pvs)[id][i]: opinion / power of the i-th record GetVotesByID returns for id (ghost copy of the list)
+// gvCum(pvs)[id][op][i]  : int64 (wrapping) sum of the power of the first i records GetVotesByID returns for id whose opinion
+//                        is op (op == 4: every record); voteSum(pvs)[id][op] the same over all records
+//@ model voteHas(*ProposalVoteStore) array[string]array[string]bool
+//@ model voteOpin(*ProposalVoteStore) array[string]array[string]int
+//@ model votePow(*ProposalVoteStore) array[string]array[string]int
+//@ model gvCum(*ProposalVoteStore) array[string]array[int]array[int]int
+//@ model gvOp(*ProposalVoteStore) array[string]array[int]int
+//@ model gvPw(*ProposalVoteStore) array[string]array[int]int
+//@ model voteSum(*ProposalVoteStore) array[string]array[int]int
+//@ model lastTally(*ProposalVoteStore) array[string]int
+//@ model lastTallyPass(*ProposalVoteStore) array[string]int
+
+// typed view of the State prefix (assumed: C09 State contracts + T-SER round trip of ProposalVote)
+//@ assume func (*ProposalVoteStore).Setup
+//@   requires pvs != nil && vote != nil
+//@   modifies vote.Opinion, voteHas(pvs)[proposalID], voteOpin(pvs)[proposalID], votePow(pvs)[proposalID], gvCum(pvs)[proposalID], gvOp(pvs)[proposalID], gvPw(pvs)[proposalID], voteSum(pvs)[proposalID], vHas(pvs.store), vVal(pvs.store)
+//@   ensures err == nil ==> voteHas(pvs)[proposalID] == old(voteHas(pvs))[proposalID][str(vote.Validator) := true]
+//@   ensures err == nil ==> voteOpin(pvs)[proposalID] == old(voteOpin(pvs))[proposalID][str(vote.Validator) := OPIN_UNKNOWN]
+//@   ensures err == nil ==> votePow(pvs)[proposalID] == old(votePow(pvs))[proposalID][str(vote.Validator) := vote.Power]
+//@   ensures err != nil ==> voteHas(pvs)[proposalID] == old(voteHas(pvs))[proposalID] && voteOpin(pvs)[proposalID] == old(voteOpin(pvs))[proposalID] && votePow(pvs)[proposalID] == old(votePow(pvs))[proposalID]
+
+// Update: only the opinion of an existing snapshot record changes (the power stays the snapshot power)
+//@ assume func (*ProposalVoteStore).Update
+//@   requires pvs != nil && vote != nil
+//@   modifies voteOpin(pvs)[proposalID], gvCum(pvs)[proposalID], gvOp(pvs)[proposalID], gvPw(pvs)[proposalID], voteSum(pvs)[proposalID], vHas(pvs.store), vVal(pvs.store)
+//@   ensures err == nil ==> voteHas(pvs)[proposalID][str(vote.Validator)]
+//@   ensures err == nil ==> voteOpin(pvs)[proposalID] == old(voteOpin(pvs))[proposalID][str(vote.Validator) := vote.Opinion]
+//@   ensures err != nil ==> voteOpin(pvs)[proposalID] == old(voteOpin(pvs))[proposalID] && gvCum(pvs)[proposalID] == old(gvCum(pvs))[proposalID] && voteSum(pvs)[proposalID] == old(voteSum(pvs))[proposalID]
+
+// GetVotesByID: the returned list is the list of snapshot records of the proposal (assumed typed view of IterateRange:
+// committed keys only). gvCum is the ghost prefix-sum witness of that list; its last column is voteSum.
+//@ assume func (*ProposalVoteStore).GetVotesByID
+//@   requires pvs != nil
+//@   modifies nothing
+//@   ensures err == nil ==> len(result1) > 0 && len(result0) == len(result1)
+//@   ensures err == nil ==> forall i int :: 0 <= i && i < len(result1) ==> result1[i] != nil && result1[i].Opinion == gvOp(pvs)[proposalID][i] && result1[i].Power == gvPw(pvs)[proposalID][i]
+//@   ensures err == nil ==> forall i int :: 0 <= i && i < len(result1) ==> voteHas(pvs)[proposalID][str(result1[i].Validator)] && result1[i].Opinion == voteOpin(pvs)[proposalID][str(result1[i].Validator)] && result1[i].Power == votePow(pvs)[proposalID][str(result1[i].Validator)]
+//@   ensures err == nil ==> forall op int :: gvCum(pvs)[proposalID][op][0] == 0
+//@   ensures err == nil ==> forall j int, op int :: 1 <= j ==> gvCum(pvs)[proposalID][op][j] == wrap64(gvCum(pvs)[proposalID][op][j - 1] + ((op == 4 || gvOp(pvs)[proposalID][j - 1] == op) ? gvPw(pvs)[proposalID][j - 1] : 0))
+//@   ensures err == nil ==> forall op int :: gvCum(pvs)[proposalID][op][len(result1)] == voteSum(pvs)[proposalID][op]
+
+// ResultSoFar: the three reported powers are the (int64) sums of the snapshot powers by recorded opinion, and the result is
+// the decision rule gTally (above) applied to those sums and passPercent.
+// gTally: the decision rule of ResultSoFar over the integer sums (float operations are uninterpreted symbols; the rule fixes
+// WHICH quotients are compared and which comparison selects which result, not their rounding):
+//   pass = float(passPercent)/100;  yes% = total > 0 ? float(yes)/float(total) : 0;  no% likewise
+//   PASSED if pass <= yes%;  else FAILED if 1 - no% < pass;  else TBD          (total = all - giveup, int64)
+//@ ghost func gTally(yes int, no int, total int, pass int) VoteResult = @f64_le(@f64_div(@f64_of_int(pass), @f64_of_int(100)), (total > 0 ? @f64_div(@f64_of_int(yes), @f64_of_int(total)) : @f64_of_int(0))) ? VOTE_RESULT_PASSED : (@f64_lt(@f64_sub(@f64_of_int(1), (total > 0 ? @f64_div(@f64_of_int(no), @f64_of_int(total)) : @f64_of_int(0))), @f64_div(@f64_of_int(pass), @f64_of_int(100))) ? VOTE_RESULT_FAILED : VOTE_RESULT_TBD)
+// the tally of proposal id on the current vote records with pass percentage `pass`
+//@ ghost func gTallyOf(pvs *ProposalVoteStore, id ProposalID, pass int) VoteResult = gTally(voteSum(pvs)[id][OPIN_POSITIVE], voteSum(pvs)[id][OPIN_NEGATIVE], wrap64(voteSum(pvs)[id][4] - voteSum(pvs)[id][OPIN_GIVEUP]), pass)
+
+// lastTally(pvs)[id] / lastTallyPass(pvs)[id]: ghost record of the result ResultSoFar last computed for id and of the pass
+// percentage it was computed with (lets handler contracts say "the move made is the one this tally dictates")
+//@ func (*ProposalVoteStore).ResultSoFar
+//@   requires pvs != nil
+//@   modifies lastTally(pvs)[proposalID], lastTallyPass(pvs)[proposalID]
+//@   update lastTally(pvs) := old(lastTally(pvs))[proposalID := result0.Result]
+//@   update lastTallyPass(pvs) := old(lastTallyPass(pvs))[proposalID := passPercent]
+//@   ensures lastTally(pvs)[proposalID] == result0.Result && lastTallyPass(pvs)[proposalID] == passPercent
+//@   ensures err != nil ==> result0.Result == VOTE_RESULT_TBD
+//@   ensures err == nil ==> result0.Result == gTallyOf(pvs, proposalID, passPercent)                                                  // C14.tally-rule
+//@   ensures result0 != nil && fresh(result0)
+//@   ensures err == nil ==> result0.PowerYes == voteSum(pvs)[proposalID][OPIN_POSITIVE] && result0.PowerNo == voteSum(pvs)[proposalID][OPIN_NEGATIVE] && result0.PowerAll == voteSum(pvs)[proposalID][4]   // C14.tally-sums
+//@   ensures err == nil ==> result0.Result == VOTE_RESULT_PASSED || result0.Result == VOTE_RESULT_FAILED || result0.Result == VOTE_RESULT_TBD   // C14.tally-result
+//@   invariant loop1: 0 <= $i && $i <= len(votes) && len(eachPower) == 4
+//@   invariant loop1: forall j int :: 0 <= j && j < len(votes) ==> votes[j] != nil && votes[j].Opinion == gvOp(pvs)[proposalID][j] && votes[j].Power == gvPw(pvs)[proposalID][j]
+//@   invariant loop1: allPower == gvCum(pvs)[proposalID][4][$i]
+//@   invariant loop1: forall op int :: 0 <= op && op < 4 ==> eachPower[op] == gvCum(pvs)[proposalID][op][$i]
+
+// typed view of the staking options record (requested by the C10 worker; assumed like GetProposalOptionsByType)
+//@ model stkOpt(*Store) delegation.Options
+// stkOptOK(st): the staking-options record (and its last-update-height entry) is present and decodes, i.e. the read succeeds
+// (requested by the C10 worker so that "genesis stored the options" can be stated as a precondition)
+//@ model stkOptOK(*Store) bool
+//@ assume func (*Store).GetStakingOptions
+//@   modifies nothing
+//@   ensures (err == nil) == stkOptOK(st)
+//@   ensures err == nil ==> result0 != nil && fresh(result0) && *result0 == stkOpt(st)
+//@   ensures err != nil ==> result0 == nil
+
+// typed view of the evidence options record (requested by the C19 worker; assumed like GetStakingOptions)
+//@ model evOpt(*Store) evidence.Options
+//@ assume func (*Store).GetEvidenceOptions
+//@   modifies nothing
+//@   ensures err == nil ==> result0 != nil && fresh(result0) && *result0 == evOpt(st)
+//@   ensures err != nil ==> result0 == nil
+
+// iteration over the records of the current stage prefix (assumed typed view of State.IterateRange: committed keys only)
+// itCount(ps)[p]: number of records the iteration over stage prefix p visits (when the callback never stops it)
+//@ model itCount(*ProposalStore) array[string]int
+//@ assume func (*ProposalStore).Iterate
+//@   iterator
+//@   requires ps != nil
+//@   modifies nothing
+//@   count itCount(ps)[str(ps.prefix)]
+//@   yields y1 != nil && propHas(ps, ps.prefix, y0) && *y1 == propRec(ps, ps.prefix, y0) && y1.ProposalID == y0
